@@ -1,12 +1,17 @@
 #!/usr/bin/env python3
-# usage: mkmut.py <name> <file> <old> <new>   -> writes /verif/mutants/<name>.diff (repo left pristine)
-import sys,subprocess
+# usage: mkmut.py <name> <file> <old> <new>   -> writes /verif/mutants/<name>.diff
+# works in a scratch worktree of /repo's HEAD (/tmp/mk), never in /repo itself
+import sys,subprocess,os
 name,f,old,new=sys.argv[1:5]
-p='/repo/'+f
+WT='/tmp/mk'
+if not os.path.isdir(WT):
+    subprocess.run(['git','-C','/repo','worktree','add','--detach',WT,'HEAD'],capture_output=True)
+subprocess.run(['git','-C',WT,'checkout','--detach','-q',subprocess.run(['git','-C','/repo','rev-parse','HEAD'],capture_output=True,text=True).stdout.strip()])
+p=os.path.join(WT,f)
 s=open(p).read()
 assert s.count(old)>=1, "pattern not found"
 open(p,'w').write(s.replace(old,new,1))
-d=subprocess.run(['git','-C','/repo','diff'],capture_output=True,text=True).stdout
+d=subprocess.run(['git','-C',WT,'diff'],capture_output=True,text=True).stdout
 open('/verif/mutants/%s.diff'%name,'w').write(d)
-subprocess.run(['git','-C','/repo','checkout','--','.'])
+subprocess.run(['git','-C',WT,'checkout','--','.'])
 print("ok",name,len(d))
